@@ -2,7 +2,7 @@
 SPECIFICATION Spec
 CONSTANTS
   Clients = {"c1", "c2"}
-  Conns = {"k1", "k2", "k3"}
+  ConnOrder <- K3
   Topics <- T1
   Filters <- F_One
   QosSet = {1, 2}
